@@ -1766,6 +1766,8 @@ def alg_in_fragment(a):
         return alg_in_fragment(a[2])
     if k == "minus":
         return alg_in_fragment(a[1]) and alg_in_fragment(a[2])
+    if k == "leftjoin":
+        return exists_free(a[3]) and alg_in_fragment(a[1]) and alg_in_fragment(a[2])
     return False
 
 
